@@ -16,15 +16,32 @@ package client
 
 //@ func (*Client).PutItem
 //@   partial
+//@   opaque (*Table).Put
+//@   callsite[C01,C05,C08,C13] (*Client).getTable: arg.tableName == old(input.TableName == nil ? "" : *input.TableName)
+//@   callsite[C01,C05,C08,C13] mapPutItemInputToTypes: arg.input == input
+//@   callsite[C01,C05,C08,C13] (*Table).Put: arg.t == table && arg.input != nil && arg.input.ConditionExpression == old(input.ConditionExpression) &&
+//@                SameKeys1(arg.input.Item, old(input.Item)) && SameKeys1(arg.input.ExpressionAttributeValues, old(input.ExpressionAttributeValues))
 //@   ensures[C15] old(fd.forceFailureErr) != nil && sdkValidate(input) == nil ==> result1 == old(fd.forceFailureErr) && unchangedAll()
 //@ func (*Client).DeleteItem
 //@   partial
+//@   opaque (*Table).Delete
+//@   callsite[C01,C05,C08,C13] (*Client).getTable: arg.tableName == old(input.TableName == nil ? "" : *input.TableName)
+//@   callsite[C01,C05,C08,C13] mapDeleteItemInputToTypes: arg.input == input
+//@   callsite[C01,C05,C08,C13] (*Table).Delete: arg.t == table && arg.input != nil && arg.input.ConditionExpression == old(input.ConditionExpression) &&
+//@                SameKeys1(arg.input.Key, old(input.Key)) && SameKeys1(arg.input.ExpressionAttributeValues, old(input.ExpressionAttributeValues))
 //@   ensures[C15] old(fd.forceFailureErr) != nil && sdkValidate(input) == nil ==> result1 == old(fd.forceFailureErr) && unchangedAll()
 //@ func (*Client).UpdateItem
 //@   partial
+//@   opaque (*Table).Update
+//@   callsite[C01,C05,C08,C13] (*Client).getTable: arg.tableName == old(input.TableName == nil ? "" : *input.TableName)
+//@   callsite[C01,C05,C08,C13] mapUpdateItemInputToTypes: arg.input == input
+//@   callsite[C01,C05,C08,C13] (*Table).Update: arg.t == table && arg.input != nil && arg.input.ConditionExpression == old(input.ConditionExpression) &&
+//@                arg.input.UpdateExpression == old(input.UpdateExpression == nil ? "" : *input.UpdateExpression) && SameKeys1(arg.input.Key, old(input.Key)) && SameKeys1(arg.input.ExpressionAttributeValues, old(input.ExpressionAttributeValues))
 //@   ensures[C15] old(fd.forceFailureErr) != nil && sdkValidate(input) == nil ==> result1 == old(fd.forceFailureErr) && unchangedAll()
 //@ func (*Client).GetItem
 //@   partial
+//@   callsite[C01,C13] (*Client).getTable: arg.tableName == old(input.TableName == nil ? "" : *input.TableName)
+//@   callsite[C01,C13] keySchema.GetKey: arg.ks == table.KeySchema && arg.attrs == table.AttributesDef && SameKeys1(arg.item, old(input.Key))
 //@   ensures[C15] old(fd.forceFailureErr) != nil && sdkValidate(input) == nil ==> result1 == old(fd.forceFailureErr) && unchangedAll()
 //@ func (*Client).Query
 //@   partial
@@ -184,3 +201,22 @@ package client
 //@            (forall m string :: {client.(*Client).tables[n].Indexes[m]} m in client.(*Client).tables[n].Indexes ==> client.(*Client).tables[n].Indexes[m] != nil)
 //@   callsite[C18] (*Table).Clear: arg.t == table
 //@   callsite[C18] (*index).Clear: arg.i == index
+
+// ---- C01 / C05 / C08 / C13 at the client: single-item operations reach the core unchanged (as on the SDK v2 client) ----
+// SameKeys1: the converted map has exactly the non-nil attributes of the request map (the SDK v1 converter skips nil values)
+//@ pred SameKeys1(r map[string]*types.Item, a map[string]*dynamodb.AttributeValue) := forall k string :: {k in r} (k in r) == (k in a && a[k] != nil)
+
+//@ func mapPutItemInputToTypes
+//@   partial
+//@   ensures[C01,C05] (result == nil) == (input == nil)
+//@   ensures[C01,C05] input != nil ==> fresh(result) && result.ConditionExpression == old(input.ConditionExpression) &&
+//@                SameKeys1(result.Item, old(input.Item)) && SameKeys1(result.ExpressionAttributeValues, old(input.ExpressionAttributeValues))
+//@ func mapDeleteItemInputToTypes
+//@   ensures[C01,C05] (result == nil) == (input == nil)
+//@   ensures[C01,C05] input != nil ==> fresh(result) && result.ConditionExpression == input.ConditionExpression &&
+//@                SameKeys1(result.Key, input.Key) && SameKeys1(result.ExpressionAttributeValues, input.ExpressionAttributeValues)
+//@ func mapUpdateItemInputToTypes
+//@   partial
+//@   requires input != nil
+//@   ensures[C01,C05] fresh(result) && result != nil && result.ConditionExpression == old(input.ConditionExpression) &&
+//@                result.UpdateExpression == old(input.UpdateExpression == nil ? "" : *input.UpdateExpression) && SameKeys1(result.Key, old(input.Key)) && SameKeys1(result.ExpressionAttributeValues, old(input.ExpressionAttributeValues))
